@@ -767,7 +767,10 @@ inline ClassAdapter<PPL::PIP_Problem> pip_tree_adapter() {
   VX_OBS("dimensions/parameters/big", [](D& p, const D*) { return std::to_string(p.space_dimension()) + "/" + std::to_string(p.parameter_space_dimensions().size()) + "/" + std::to_string((long)p.get_big_parameter_dimension()); });
   VX_BIN("operator=", [](D& p, const D* a) { p = *a; return std::string(); });
   VX_BIN("m_swap(copy of arg)", [](D& p, const D* a) { D t(*a); p.m_swap(t); return std::string(); });
-  fill_io_x<D>(A, []() { return new D(); }, [](const D& a, const D& b) { return pip_tree_text(a) == pip_tree_text(b) && io_print(a) == io_print(b); }, [](const D& d) { return io_print(d); });
+  // equality does NOT solve: re-solving an already solved problem after add_constraint can crash on the ORIGINAL
+  // (incremental-solve defects owned by C07); the solution trees are compared by the solve()/solution() operations
+  // of the look-ahead, where a crash of the original is attributed to the original.
+  fill_io_x<D>(A, []() { return new D(); }, [](const D& a, const D& b) { return io_print(a) == io_print(b) && a.status == b.status && a.get_big_parameter_dimension() == b.get_big_parameter_dimension(); }, [](const D& d) { return io_print(d); });
   return A;
 }
 
